@@ -901,6 +901,34 @@ fn gen_c08(rng: &mut Rng) -> Plan {
         let dry = gen::dry_run(&plan);
         plan.faults = vec![gen::gen_fault(rng, &dry)];
     }
+    // rarely: the application has fallen behind with its notifications (dozens to hundreds
+    // unread) when the connection fails while idle; once it catches up it must find every
+    // change and then the closing event — the only place this failure can surface
+    if rng.chance(1, 40) {
+        let n = *rng.pick(&[33usize, 40, 64, 130, 300]);
+        let start = rng.below(30);
+        plan.changes = (0..n)
+            .map(|i| ChangeEvent {
+                at_ms: start + i as u64,
+                names: vec![crate::session::mpd::SUBSYSTEMS[i % 14].to_string()],
+            })
+            .collect();
+        if rng.chance(1, 2) {
+            plan.callers.clear();
+            plan.pictures.clear();
+        }
+        plan.net = NetPolicy::default();
+        let at = start + n as u64 + gen::rough_span(&plan) + rng.below(100);
+        let kind = match rng.below(4) {
+            0 => FaultKind::Cut,
+            1 => FaultKind::ReadErr("ConnectionReset".into()),
+            2 => FaultKind::Reset,
+            _ => FaultKind::ReadErr("UnexpectedEof".into()),
+        };
+        plan.faults = vec![Fault { kind, trigger: Trigger::AtTime(at) }];
+        plan.consumer = Consumer::StartAt(at + 500);
+        plan.keep_main_handle = true;
+    }
     plan
 }
 
@@ -928,6 +956,9 @@ impl Check for C08 {
         }
         let mut rng = Rng::new(mix(seed, "C08", index));
         let plan = gen_c08(&mut rng);
+        if plan.changes.len() >= 32 && matches!(plan.consumer, Consumer::StartAt(_)) {
+            ctx.counters.bump("failure_with_unread_notification_backlog");
+        }
         ctx.about_to_eval(&plan);
         let (ev, out) = eval_with(&plan, oracle::check_c08, nt_c08);
         bump_probes(ctx, &plan, &out);
@@ -1225,6 +1256,27 @@ fn gen_c18b(rng: &mut Rng) -> Plan {
         plan.connect_via_opt = rng.chance(1, 2);
     }
     plan.net = gen::gen_net(rng);
+    // the handshake is over once the greeting (and the server's verdict on the password) has
+    // been received; what happens to the transport afterwards belongs to the session, not to
+    // connecting. In a share of the plans the write side breaks at that very moment — the
+    // greeting was valid and arrives completely, the password was accepted — so connecting
+    // must still succeed (and the failure shows up in the session).
+    let accepted = match &plan.password {
+        None => true,
+        Some(p) => p.verdict == PwVerdict::Accept,
+    };
+    if accepted && rng.chance(1, 6) {
+        let kind = (*rng.pick(&["BrokenPipe", "ConnectionReset", "ConnectionAborted", "TimedOut"])).to_string();
+        let trigger = if plan.password.is_some() {
+            Trigger::AfterResponse(0)
+        } else {
+            Trigger::AtS2cOffset(format!("OK MPD {}\n", plan.version).len())
+        };
+        plan.faults.push(Fault {
+            kind: FaultKind::WriteErr(kind),
+            trigger,
+        });
+    }
     // a little workload after the handshake
     if rng.chance(2, 3) {
         let mut ids = Ids(0);
